@@ -24,7 +24,7 @@ RULE = (
     "a Python float or as a 0-d array. tanh: a 3-D array (shape from a menu of six) of seeded uniform values on [0,1] (or "
     "[-0.25,1.25]) with exact 0 and 1 planted plus drawn special cells (eta, the floats next to eta, eta+-1e-3, "
     "out-of-range). smoothed: a 2-D design (2..8 per axis from a menu of four shapes, singleton axis at a drawn position, drawn voxel size) of "
-    "kind smooth-wave-through-eta / random / constant / binary / dust (uniform*1e-12..1e-120, alone or beside a wave) / ramp. "
+    "kind smooth-wave-through-eta / random / constant / binary / dust (uniform*1e-12..1e-160, alone or beside a wave) / ramp / tail (Gaussian bump decaying through every decade to the denormal range). "
     "Non-trivial = beta in {0,inf} or eta in {0,1} or (smoothed) at least one interface cell and one interface-free "
     "cell are present. Distinct = sha1 of the case JSON."
 )
@@ -101,9 +101,10 @@ def smoothed_case(draw):
         "voxel_nm": draw(st.sampled_from([1.0, 20.0, 50.0, 330.0, 1000.0])),
         "voxel_other_nm": draw(st.sampled_from([20.0, 50.0, 75.0])),
         "kind": draw(st.sampled_from(["wave", "wave", "wave", "random", "constant", "binary", "dust", "dust",
-                                 "wave+dust", "ramp"])),
+                                 "wave+dust", "ramp", "tail", "tail"])),
+        "tail_rate": draw(st.sampled_from([0.3, 0.5, 1.0, 3.0, 8.0])),
         "amp": draw(st.sampled_from([0.05, 0.2, 0.45])),
-        "noise_exp": draw(st.sampled_from([12, 15, 80, 100, 120])),
+        "noise_exp": draw(st.sampled_from([12, 15, 20, 23, 26, 80, 100, 120, 150, 160])),
         "seed": draw(st.integers(0, 2**31 - 1)),
         "beta": draw(_beta()),
         "eta": draw(_eta()),
@@ -281,6 +282,11 @@ def _design(case, np_dtype):
             kx, ky = rng.uniform(0.2, 0.9, 2)
             wave = np.clip(0.5 + 0.45 * np.sin(kx * i + rng.uniform(0, 6.3)) * np.cos(ky * j + rng.uniform(0, 6.3)), 0, 1)
             x = np.where(i < (n + 1) // 2, dust, wave) if rng.uniform() < 0.5 else np.where(j < (m + 1) // 2, dust, wave)
+    elif kind == "tail":
+        # the tail of a filtered bump: values sweep through every decade down to the denormal range, so squared
+        # gradient norms pass through the underflow range of the lane's dtype somewhere in the array
+        ci, cj = rng.uniform(0, n - 1), rng.uniform(0, m - 1)
+        x = np.exp(-case.get("tail_rate", 1.0) * ((i - ci) ** 2 + (j - cj) ** 2))
     else:  # ramp through the threshold along a drawn direction
         a, b = rng.uniform(-1, 1, 2)
         r = a * (i - (n - 1) / 2) + b * (j - (m - 1) / 2)
@@ -346,7 +352,29 @@ def smoothed_body(ctx, case):
                   metric="plain_mismatch")
 
 
+def corner_cases(ctx):
+    """Stratified grid over the extremes the property names explicitly (beta in {0, large, inf} x eta in {0, ~0, 0.5, 1})
+    on designs whose values sweep through every decade down to the denormal range (tail) or are numerical dust."""
+    k = 0
+    quick = ctx.tier == "quick"
+    betas = ("inf", "1e30", "0.0") if quick else ("inf", "1e6", "1e30", "0.0", "8.0")
+    etas = (0.0, 0.5, 1.0) if quick else (0.0, 1e-6, 0.5, 1.0)
+    designs = (("tail", 0.5, 20), ("tail", 3.0, 20), ("dust", 1.0, 20), ("dust", 1.0, 23)) if quick else (
+        ("tail", 0.5, 20), ("tail", 1.0, 20), ("tail", 3.0, 20), ("tail", 8.0, 20), ("dust", 1.0, 20), ("dust", 1.0, 23),
+        ("wave+dust", 1.0, 26), ("dust", 1.0, 150))
+    for beta in betas:
+        for eta in etas:
+            for kind, rate, nexp in designs:
+                for (n, m) in (((6, 8),) if quick else ((6, 8), (5, 3))):
+                    k += 1
+                    yield {"n": n, "m": m, "vaxis": k % 3, "voxel_nm": (20.0, 50.0, 1000.0)[k % 3], "voxel_other_nm": 50.0,
+                           "kind": kind, "tail_rate": rate, "amp": 0.2, "noise_exp": nexp, "seed": 1000 + k + 7919 * ctx.seed,
+                           "beta": beta, "eta": eta, "beta_as_array": bool(k % 2)}
+
+
 SUBS = [
+    Sub(name="smoothed_corners", body=smoothed_body, cases=corner_cases, lanes=("f64", "f32"),
+        rule="enumerated extremes: beta in {0, 8, 1e6, 1e30, inf} x eta in {0, 1e-6, 0.5, 1} x tail/dust designs x 2 shapes"),
     Sub(name="tanh", body=tanh_body, strategy=lambda ctx: tanh_case(), quick=400, thorough=30000,
         lanes=("f64", "f32"), f32_fraction=0.25, rule="TanhProjection invariants on a random 3-D array"),
     Sub(name="smoothed", body=smoothed_body, strategy=lambda ctx: smoothed_case(), quick=100, thorough=16000,
